@@ -153,6 +153,7 @@ static int run_case(mat_t *Y, mat_t *T, const win_t *w, stat_t *st, char *msg, s
     msg[0] = 0;
     mat_fill(T, 1);
     last_tp_name[0] = 0;
+    if (world > 1) alarm(600);
     int rc = parsec_redistribute(parsec, Y->tm, T->tm, w->sr, w->sc, w->iY, w->jY, w->iT, w->jT);
     if (rc != PARSEC_SUCCESS) { snprintf(msg, mcap, "parsec_redistribute refused a valid window (rc=%d)", rc); bad = 1; }
     uint64_t h = 1469598103934665603ULL;
@@ -192,6 +193,7 @@ static int run_case(mat_t *Y, mat_t *T, const win_t *w, stat_t *st, char *msg, s
         h = hr[0]; elems = (long)hr[1];
         if (first < world) { char tmp[SX_ERRLEN]; snprintf(tmp, sizeof(tmp), "%s", msg); MPI_Bcast(tmp, sizeof(tmp), MPI_CHAR, first, MPI_COMM_WORLD); snprintf(msg, mcap, "%s", tmp); bad = 1; }
     }
+    if (world > 1) alarm(0);
     if (st) {
         st->cases++; st->elems += elems;
         int resh = !strcmp(last_tp_name, "redistribute_reshuffle");
@@ -222,16 +224,31 @@ static int deadline_cut(int force)
 static const mdesc_t *cur_y, *cur_t; static const win_t *cur_w; static const char *cur_tag;
 static void crash_handler(int sig)
 {
-    char cs[512], msg[128];
+    char cs[512], msg[256];
     if (cur_w) {
         case_str(cs, sizeof(cs), cur_y, cur_t, cur_w);
-        snprintf(msg, sizeof(msg), "rank %d: the library crashed with signal %d while redistributing a valid window (path=%s)", myrank, sig, last_tp_name);
+        if (sig == SIGALRM) snprintf(msg, sizeof(msg), "rank %d: parsec_redistribute did not return within the 600 s watchdog delay (path=%s)", myrank, last_tp_name);
+        else snprintf(msg, sizeof(msg), "rank %d: the library crashed with signal %d while redistributing a valid window (path=%s)", myrank, sig, last_tp_name);
         sx_violation(cur_tag, cs, msg);
         sx_report(cur_tag, 0, 0, 0, 0, 0, 0, 1, 0.0, "\"crashed\":true", NULL, 0);
         sx_finish();
         _exit(1);
     }
     signal(sig, SIG_DFL); raise(sig);
+}
+static void mpi_error_hook(MPI_Comm *comm, int *code, ...)
+{
+    char es[MPI_MAX_ERROR_STRING] = "?", cs[512], msg[700]; int l = 0;
+    (void)comm; MPI_Error_string(*code, es, &l);
+    if (cur_w) {
+        case_str(cs, sizeof(cs), cur_y, cur_t, cur_w);
+        snprintf(msg, sizeof(msg), "rank %d: MPI error inside the library while redistributing a valid window: %s (path=%s)", myrank, es, last_tp_name);
+        sx_violation(cur_tag, cs, msg);
+        sx_report(cur_tag, 0, 0, 0, 0, 0, 0, 1, 0.0, "\"aborted\":true", NULL, 0);
+        sx_finish(); fflush(NULL);
+        _exit(1);
+    }
+    fprintf(stderr, "C21: MPI error outside a case: %s\n", es); _exit(2);
 }
 static const char *outcome_file = NULL, *skip_pairs = NULL;   /* skip_pairs: e.g. "bc-to-bc," : (source,target) distribution pairs left to another invocation */
 static void dump_outcomes(const char *tag, const sx_set_t *s)
@@ -353,7 +370,8 @@ int main(int argc, char **argv)
     /* timing knobs only: do not pin every process' worker to core 0; let the communication thread yield when idle */
     setenv("PARSEC_MCA_bind_threads", "0", 0);
     if (world > 1) setenv("PARSEC_MCA_runtime_comm_thread_yield", "2", 0);
-    signal(SIGSEGV, crash_handler); signal(SIGABRT, crash_handler); signal(SIGBUS, crash_handler); signal(SIGFPE, crash_handler);
+    { MPI_Errhandler eh; MPI_Comm_create_errhandler(mpi_error_hook, &eh); MPI_Comm_set_errhandler(MPI_COMM_WORLD, eh); MPI_Comm_set_errhandler(MPI_COMM_SELF, eh); }   /* inherited by the communicators parsec duplicates */
+    signal(SIGSEGV, crash_handler); signal(SIGABRT, crash_handler); signal(SIGBUS, crash_handler); signal(SIGFPE, crash_handler); signal(SIGALRM, crash_handler);
     int pargc = 1; char *pargv_s[2] = { argv[0], NULL }; char **pargv = pargv_s;
     parsec = parsec_init(1, &pargc, &pargv);
     if (!parsec) { fprintf(stderr, "C21: parsec_init failed\n"); return 2; }
